@@ -53,10 +53,15 @@ pub fn eval(ctx: &mut Context, line: &str) -> Result<QueryReply, QueryError> {
     let expr = text_query::parse_query(&mut iter);
     let res = ctx.eval_query(&expr)?;
     if ctx.save_previous_result {
-        if let QueryReply::Number(ref number_parts) = res {
-            if let Some(ref raw) = number_parts.raw_value {
-                ctx.previous_result = Some(raw.clone());
-            }
+        let raw = match res {
+            QueryReply::Number(ref number_parts) => number_parts.raw_value.as_ref(),
+            // Results with the dimension of time are shown broken down
+            // into years, weeks, days, etc. but are still plain numbers.
+            QueryReply::Duration(ref duration) => duration.raw.raw_value.as_ref(),
+            _ => None,
+        };
+        if let Some(raw) = raw {
+            ctx.previous_result = Some(raw.clone());
         }
     }
     Ok(res)
